@@ -55,6 +55,41 @@ def compare_content(content, r):
     real_objs = [(o["path"], o["ty"], canon.norm(o["props"])) for o in r["objects"]]
     if spec_objs != real_objs:
         diffs.append("objects/properties: spec=%s real=%s" % (spec_objs, real_objs))
+    # groups and channels: declared groups in order of first appearance, then groups named only through their channels;
+    # channels per group in order of first appearance (independent re-statement, from the spec content's object order)
+    def comps(ph):
+        b = bytes.fromhex(ph).decode("utf-8")
+        out, i = [], 0
+        while i < len(b) and b[i] == "/" and i + 1 < len(b) and b[i + 1] == "'":
+            i += 2
+            cur = ""
+            while i < len(b):
+                if b[i] == "'" and i + 1 < len(b) and b[i + 1] == "'":
+                    cur += "'"
+                    i += 2
+                elif b[i] == "'":
+                    i += 1
+                    break
+                else:
+                    cur += b[i]
+                    i += 1
+            out.append(cur)
+        return out
+    declared, implied, chans = [], [], {}
+    for o in content:
+        c = comps(o["path"])
+        if len(c) == 1 and c[0] not in declared:
+            declared.append(c[0])
+        elif len(c) == 2:
+            chans.setdefault(c[0], [])
+            if c[1] not in chans[c[0]]:
+                chans[c[0]].append(c[1])
+            if c[0] not in implied:
+                implied.append(c[0])
+    order = declared + [g for g in implied if g not in declared]
+    exp_groups = [[g.encode("utf-8").hex(), [c.encode("utf-8").hex() for c in chans.get(g, [])]] for g in order]
+    if "groups" in r and r["groups"] != exp_groups:
+        diffs.append("group/channel order: expected %s got %s" % (exp_groups, r["groups"]))
     rc = {c["path"]: c for c in r["channels"]}
     robj = {o["path"]: o for o in r["objects"]}
     for o in content:
